@@ -1973,13 +1973,13 @@ Section Proofs.
   Qed.
 
   Lemma find_lookup_key s (l' : nat) c (kf : string * prov -> pname) :
-    (forall cv cv', kf cv = kf cv' -> fst cv = fst cv') -> (forall cv, fst cv = c -> pname_eqb (kf cv) (kf (c, PMissing)) = true) ->
+    (forall cv, fst cv = c -> pname_eqb (kf cv) (kf (c, PMissing)) = true) ->
     (forall cv, fst cv <> c -> pname_eqb (kf cv) (kf (c, PMissing)) = false) ->
     In c (st_tfcols K s) ->
     find (fun cv => pname_eqb (kf cv) (kf (c, PMissing))) (rev (lookups K keqb s)) =
     match lookup_of s c with Some v => Some (c, v) | None => None end.
   Proof.
-    intros _ Hyes Hno Hin. destruct (lookup_of s c) as [v|] eqn:E.
+    intros Hyes Hno Hin. destruct (lookup_of s c) as [v|] eqn:E.
     - destruct (find _ (rev (lookups K keqb s))) as [[c' v']|] eqn:Ef.
       + apply find_some in Ef. destruct Ef as [Hi He]. apply in_rev in Hi.
         destruct (string_dec c' c) as [->|Hne]; [|rewrite (Hno (c', v')) in He; auto; discriminate].
@@ -2004,51 +2004,52 @@ Section Proofs.
   (* the fresh linker of the model observes the same input rows, model and registered lookups as the state it is built from *)
   Theorem obs_fresh_of s u l : inputs_plain (st_inputs K s) -> obs (fresh_of K keqb s u l) = obs s.
   Proof.
-    intros Hp. unfold obs, fresh_of. cbn [st_db st_cache st_inputs st_tfcols st_params].
-    set (leaves0 := filter (fun kv => existsb (fun l0 => pname_eqb (PL l0) (fst kv)) (st_inputs K s)) (st_db K s)).
+    intros Hp.
     set (kd := fun cv : string * prov => PL (LUid (tfname (fst cv)) l)).
     set (kc := fun cv : string * prov => named (tfname (fst cv))).
-    assert (A1 : map (fun l0 => content (fold_left (fun d cv => aset d (kd cv) {| e_prov := snd cv; e_origin := Caller |})
-                                                    (lookups K keqb s) leaves0) (PL l0)) (st_inputs K s)
+    set (leaves0 := filter (fun kv => existsb (fun l0 => pname_eqb (PL l0) (fst kv)) (st_inputs K s)) (st_db K s)).
+    assert (Edb : st_db K (fresh_of K keqb s u l) =
+                  fold_left (fun d cv => aset d (kd cv) {| e_prov := snd cv; e_origin := Caller |}) (lookups K keqb s) leaves0)
+      by reflexivity.
+    assert (Ecache : st_cache K (fresh_of K keqb s u l) =
+                     fold_left (fun c0 cv => aset c0 (kc cv)
+                        {| h_templ := tfname (fst cv); h_phys := kd cv; h_src := Leaf (LUid (tfname (fst cv)) l); h_cbs := false |})
+                       (lookups K keqb s) []) by reflexivity.
+    assert (F : forall (kf : string * prov -> pname) c,
+               (forall cv, fst cv = c -> kf cv = kf (c, PMissing)) -> (forall cv, kf cv = kf (c, PMissing) -> fst cv = c) ->
+               In c (st_tfcols K s) ->
+               find (fun cv => pname_eqb (kf cv) (kf (c, PMissing))) (rev (lookups K keqb s)) =
+               match lookup_of s c with Some v => Some (c, v) | None => None end).
+    { intros kf c Hy Hn Hin. apply (find_lookup_key s l c kf); auto.
+      - intros cv Hc. rewrite (Hy cv Hc). apply pname_eqb_refl.
+      - intros cv Hne. apply pname_eqb_neq. intros H. apply Hne. apply Hn. exact H. }
+    assert (A1 : map (fun l0 => content (st_db K (fresh_of K keqb s u l)) (PL l0)) (st_inputs K s)
                  = map (fun l0 => content (st_db K s) (PL l0)) (st_inputs K s)).
-    { apply map_ext_in. intros l0 Hin. unfold Cache.content. rewrite fold_aset_spec.
+    { apply map_ext_in. intros l0 Hin. rewrite Edb. unfold Cache.content. rewrite fold_aset_spec.
       destruct (find _ (rev (lookups K keqb s))) as [[c v]|] eqn:Ef.
       - apply find_some in Ef. destruct Ef as [_ He]. unfold kd in He. cbn in He. destruct (Hp _ Hin) as [n ->]. cbn in He. discriminate.
       - unfold leaves0. rewrite (aget_filter_key (fun k => existsb (fun l1 => pname_eqb (PL l1) k) (st_inputs K s))).
         assert (X : existsb (fun l1 => pname_eqb (PL l1) (PL l0)) (st_inputs K s) = true)
           by (apply existsb_exists; exists l0; split; auto; apply pname_eqb_refl).
         rewrite X. reflexivity. }
-    assert (A2 : map (fun c => lookup_of (fresh_of K keqb s u l) c) (st_tfcols K s) = map (lookup_of s) (st_tfcols K s)).
-    { apply map_ext_in. intros c Hin. unfold lookup_of at 1. unfold fresh_of. cbn [st_cache st_db].
-      fold leaves0. fold kd.
-      change (fold_left (fun c0 cv => aset c0 (named (tfname (fst cv)))
-                 {| h_templ := tfname (fst cv); h_phys := PL (LUid (tfname (fst cv)) l); h_src := Leaf (LUid (tfname (fst cv)) l); h_cbs := false |})
-               (lookups K keqb s) [])
-        with (fold_left (fun c0 cv => aset c0 (kc cv)
-                 {| h_templ := tfname (fst cv); h_phys := kd cv; h_src := Leaf (LUid (tfname (fst cv)) l); h_cbs := false |})
-               (lookups K keqb s) []).
-      rewrite fold_aset_spec.
-      assert (F1 : find (fun cv => pname_eqb (kc cv) (named (tfname c))) (rev (lookups K keqb s)) =
-                   match lookup_of s c with Some v => Some (c, v) | None => None end).
-      { apply (find_lookup_key s l c kc); auto.
-        - intros cv cv' H. unfold kc in H. apply named_inj in H. apply tfname_inj in H. auto.
-        - intros cv <-. unfold kc. apply pname_eqb_refl.
-        - intros cv Hne. unfold kc. apply pname_eqb_neq. intros H. apply named_inj in H. apply tfname_inj in H. auto. }
-      change (named (tfname c)) with (kc (c, PMissing)) at 1. unfold kc at 2. cbn [fst]. rewrite F1.
-      destruct (lookup_of s c) as [v|] eqn:E; [|reflexivity]. cbn [h_phys is_hashed kd fst]. f_equal.
-      unfold Cache.content. rewrite fold_aset_spec.
-      assert (F2 : find (fun cv => pname_eqb (kd cv) (kd (c, PMissing))) (rev (lookups K keqb s)) =
-                   match lookup_of s c with Some v => Some (c, v) | None => None end).
-      { apply (find_lookup_key s l c kd); auto.
-        - intros cv cv' H. unfold kd in H. assert (X : tfname (fst cv) = tfname (fst cv')) by congruence. apply tfname_inj in X. auto.
-        - intros cv <-. unfold kd. apply pname_eqb_refl.
-        - intros cv Hne. unfold kd. apply pname_eqb_neq. intros H. assert (X : tfname (fst cv) = tfname c) by (cbn in H; congruence). apply tfname_inj in X. auto. }
-      pose proof (F2 : find (fun a : string * prov => pname_eqb (PL (LUid (tfname (fst a)) l)) (kd (c, v))) (rev (lookups K keqb s))
-                       = match lookup_of s c with Some v0 => Some (c, v0) | None => None end) as F3.
-      rewrite F3, E. reflexivity. }
-    change (lookup_of {| st_db := _; st_cache := _; st_inputs := _; st_tfcols := _; st_params := _; st_uid := _; st_luid := _;
-                         st_ctr := _; st_debug := _; st_fix := _ |}) with (lookup_of (fresh_of K keqb s u l)).
-    fold leaves0. fold kd. rewrite A1, A2. reflexivity.
+    assert (A2 : map (lookup_of (fresh_of K keqb s u l)) (st_tfcols K s) = map (lookup_of s) (st_tfcols K s)).
+    { apply map_ext_in. intros c Hin. unfold lookup_of at 1. rewrite Ecache, fold_aset_spec.
+      assert (F1 := F kc c). change (kc (c, PMissing)) with (named (tfname c)) in F1. rewrite F1; auto.
+      - destruct (lookup_of s c) as [v|] eqn:E; [|reflexivity]. cbn [h_phys is_hashed kd fst]. f_equal.
+        rewrite Edb. unfold Cache.content. rewrite fold_aset_spec.
+        assert (F2 := F kd c).
+        match goal with |- context [find ?f (rev (lookups K keqb s))] =>
+          assert (F3 : find f (rev (lookups K keqb s)) = match lookup_of s c with Some v0 => Some (c, v0) | None => None end) end.
+        { apply F2; auto.
+          - intros cv <-. reflexivity.
+          - intros cv H. unfold kd in H. cbn [fst] in H. assert (X : tfname (fst cv) = tfname c) by congruence. apply tfname_inj in X. auto. }
+        rewrite F3, E. reflexivity.
+      - intros cv <-. reflexivity.
+      - intros cv H. unfold kc in H. cbn [fst] in H. apply named_inj in H. apply tfname_inj in H. auto. }
+    unfold obs. change (st_inputs K (fresh_of K keqb s u l)) with (st_inputs K s).
+    change (st_tfcols K (fresh_of K keqb s u l)) with (st_tfcols K s).
+    change (st_params K (fresh_of K keqb s u l)) with (st_params K s).
+    rewrite A1, A2. reflexivity.
   Qed.
 End Proofs.
 
